@@ -1,6 +1,7 @@
 import Driver.Util
 import SynKitModel.Views
 import SynKitModel.ViewsRaw
+import SynKitModel.ViewsClaim
 /-! Driver commands for the network views (C16).
 
 Net:    {"species": [s…], "rxns": [{"id","rule","r": [[s,c]…], "p": [[s,c]…]}…], "mol": [[s,m]…]}
@@ -281,6 +282,39 @@ def handle : Driver.Handler := fun cmd j =>
       | .ok st => Except.ok st.net
       | .error e => Except.error e
     pure (resJson r)
+  | "views.claim_bip_raw" => some do
+    -- is a round trip claimed for this degraded bipartite graph? (SynKitModel/ViewsClaim.lean;
+    -- `bipRawClaim_roundtrip`, `bipRawClaim_roundtrip_noid` of Props/C16.lean)
+    -- graph: nodes in `G.nodes` order; arcs reaction node by reaction node (node order), the
+    -- incoming arcs then the outgoing ones, each in the order the exporter added them
+    let N ← netOfJson (← j.getObjVal? "net")
+    let f ← flagsOfJson (← j.getObjVal? "flags")
+    let g ← rbgraphOfJson (← j.getObjVal? "graph")
+    let o : ImpOpts := { speciesPrefix := ← Driver.getStr j "sp", reactionPrefix := ← Driver.getStr j "rp",
+                         defaultRule := ← Driver.getStr j "default_rule", molOn := ← Driver.getBool j "mol" }
+    let cm := bipRawClaimWith true f o N g
+    let c := cm || bipRawClaimWith false f o N g
+    pure (Json.mkObj [("claim", c), ("mol", cm), ("ids", c && bipRawIdsKept f N g),
+      ("prefix_disjoint", decide (PrefixDisjoint o.speciesPrefix o.reactionPrefix N)),
+      ("re", resJson (ofBipartiteRaw genIdPlaceholder o g))])
+  | "views.claim_species_raw" => some do
+    -- `speciesRawClaim_roundtrip` of Props/C16.lean; arcs in `G.edges` order
+    let N ← netOfJson (← j.getObjVal? "net")
+    let g ← rsgraphOfJson (← j.getObjVal? "graph")
+    pure (Json.mkObj [("claim", speciesRawClaim (← Driver.getBool j "mol") N g),
+      ("arcs_uniform", decide (ArcsUniform N)), ("all_ones", decide (AllOnes N))])
+  | "views.claim_items" => some do
+    -- `parseItemsFrom_forms` of Props/C16.lean
+    let N ← netOfJson (← j.getObjVal? "net")
+    let f ← strFlagsOfJson (← j.getObjVal? "flags")
+    let items ← (← Driver.getArr j "items").toList.mapM fun it => do
+      let pr ← (fromJson? it : Except String (Array Json))
+      if pr.size ≠ 2 then throw "item"
+      let r ← match pr[1]! with
+        | .null => pure none
+        | v => (fromJson? v : Except String String).map some
+      pure (((← (fromJson? pr[0]! : Except String String)).toList, r) : List Char × Option String)
+    pure (Json.mkObj [("claim", itemsClaim f (← Driver.getBool j "suffix") (← Driver.getBool j "prefer") N items)])
   | "views.side" => some do
     let ss ← (← Driver.getArr j "sides").toList.mapM fun s => (fromJson? s : Except String String)
     pure (Json.arr (ss.map fun s => sideRes (parseSide s.toList)).toArray)
